@@ -23,24 +23,34 @@ NEEDS = {
  "C19": "Hessian sparse routines on a host whose block columns hold other stored entries above the block (non-zero offset): lockstep InnerIterator without row check",
  "C20": "binary_interval_search on a range with a repeated value queried exactly at that value: early exit on equality",
 }
+NEEDS.update({
+ "C02b": "SO3 log, small-angle series branch (rotation angle 8e-5..2e-4, double only): second series term with the wrong sign; relative error up to 6.6e-9 (tolerance 1e-9)",
+ "C04b": "SE2 dr_expinv / dl_expinv, series branch (0 < |theta| < 1e-4) with non-zero translation: leading coefficient 1/24 instead of 1/12",
+ "C07b": "std::vector of dynamic-dof elements with DIFFERENT run-time dofs (VectorXd of mixed sizes, nested vectors): tangent offset i*dof_i instead of the running sum",
+ "C12b": "concat_global where an appended (or same-index existing) segment is cropped (m_seg_T0 != 0): crop offset copied from *this instead of other",
+ "C15b": "boost-odeint adaptor scale_sum with a start state that does not commute with the increment (non-identity x0 on SO3/SE2/SE3): lplus instead of rplus",
+ "C16b": "x *= y where y views memory that x writes (two Maps on one buffer, g.so2() *= g.so2(), g *= g) on SO2/SE2/Bundles: composition writes into the aliased operand",
+ "C17b": "SO3::rot_z with angles where sin(t/2) and cos(t/2) have opposite signs (t in (-pi,0), (pi,2pi) ...): canonical-sign test on q_z instead of q_w",
+ "C20b": "monomial_integral<K,P> with K=9,P>=7 or K=10,P>=6: factorial products accumulated in 32 bits wrap",
+})
 conf = {}
-for f in ("/tmp/confirm_all.out", "/tmp/confirm_all2.out", "/tmp/confirm_all3.out"):
+for f in ("/tmp/confirm_all.out", "/tmp/confirm_all2.out", "/tmp/confirm_all3.out", "/tmp/confirm_all4.out"):
     if os.path.exists(f):
         for l in open(f):
-            m = re.match(r"CONFIRM (C\d+): demo with change exit=(\d+), without exit=(\d+)", l)
+            m = re.match(r"CONFIRM (C\d+b?): demo with change exit=(\d+), without exit=(\d+)", l)
             if m:
                 conf[m.group(1)] = (int(m.group(2)), int(m.group(3)))
 import glob as _g
 for f in _g.glob("/tmp/seed_C*/confirm_demo.txt"):
     for l in open(f):
-        m = re.match(r"CONFIRM (C\d+): demo with change exit=(\d+), without exit=(\d+)", l)
+        m = re.match(r"CONFIRM (C\d+b?): demo with change exit=(\d+), without exit=(\d+)", l)
         if m:
             conf.setdefault(m.group(1), (int(m.group(2)), int(m.group(3))))
 tries = {}
-for f in ("/tmp/try_all.out", "/tmp/try_all2.out", "/tmp/try_all3.out", "/tmp/try_all4.out"):
+for f in ("/tmp/try_all.out", "/tmp/try_all2.out", "/tmp/try_all3.out", "/tmp/try_all4.out", "/tmp/try_all5.out", "/tmp/try_all6.out"):
     if os.path.exists(f):
         for l in open(f):
-            m = re.match(r"TRY seed=(C\d+) check=(C\d+) exit=(\d+) : (\d+) violations; (.*)", l)
+            m = re.match(r"TRY seed=(C\d+b?) check=(C\d+) exit=(\d+) : (\d+) violations; (.*)", l)
             if m:
                 tries[m.group(1)] = dict(check=m.group(2), exit=int(m.group(3)), violations=int(m.group(4)), summary=m.group(5).strip())
 for sid in sorted(NEEDS):
@@ -52,14 +62,14 @@ for sid in sorted(NEEDS):
     if os.path.exists(tf):
         tests = open(tf).read().strip()
     vio = []
-    of = "/tmp/try_%s_%s.out" % (sid, sid)
+    of = "/tmp/try_%s_%s.out" % (sid, sid[:3])
     if os.path.exists(of):
         lines = open(of).read().splitlines()
         for i, l in enumerate(lines):
             if l.startswith("VIOLATION") and i + 1 < len(lines):
                 vio.append(lines[i + 1].strip()[:300])
     meta = {
-        "breaks_property": sid,
+        "breaks_property": sid[:3],
         "needs_to_manifest": NEEDS[sid],
         "origin": "independent sub-agent given only the property text and a scratch worktree",
         "confirmed_by_me": {
@@ -67,7 +77,7 @@ for sid in sorted(NEEDS):
             "existing_test_suite_with_change": tests,
             "demo_exit_with_change": conf.get(sid, (None, None))[0],
             "demo_exit_without_change": conf.get(sid, (None, None))[1],
-            "commands": ["tools/confirm_seed.sh %s" % sid, "tools/try_seed.sh %s %s" % (sid, sid)],
+            "commands": ["tools/confirm_seed.sh %s" % sid, "SEEDDIR=seeded/%s tools/try_seed.sh %s %s" % (sid, sid, sid[:3])],
         },
         "check_result_with_change_applied_to_repo": tries.get(sid),
         "first_violations_reported": vio[:3],
